@@ -137,7 +137,7 @@ fn any_ref_state() -> R {
 
 /// One event (start or end tag) from an arbitrary guard state: refusal and successor state agree
 /// with the reference (inductive form: covers tag sequences of any length).
-// @verif props=C03,C15 fns=AmbiguityGuard::track_start_tag,AmbiguityGuard::track_end_tag
+// @verif props=C03,C15 fns=AmbiguityGuard::track_start_tag,AmbiguityGuard::track_end_tag quick=C03
 #[kani::proof]
 #[kani::unwind(14)]
 fn c03_ambiguity_guard_step_matches_reference() {
